@@ -4,8 +4,8 @@
 # any edit under $(REPO)/lib, $(REPO)/config.h and the header generators.
 
 REPO ?= /repo
-B    ?= /verif/build
-V    := /verif
+V    := $(patsubst %/,%,$(dir $(abspath $(lastword $(MAKEFILE_LIST)))))
+B    ?= $(V)/build
 GEN  := $(B)/gen
 SIM  := $(V)/sim
 
